@@ -3,7 +3,7 @@ import json, os
 import vlib
 from props import uni
 
-EXPORTABLE = [0, 1, 2, 3, 4, 5, 6, 7, 8, 9, 10, 11, 12, 13, 17, 18, 19, 20, 21, 22, 23, 24]
+EXPORTABLE = [0, 1, 2, 3, 4, 5, 6, 7, 8, 9, 10, 11, 12, 13, 17, 18, 19, 20, 21, 22, 23, 24, 39, 40]
 ENVS = [None, "rel/out", "$ROOT/abs/out", "./bindings/../bindings/."]
 
 
@@ -19,7 +19,9 @@ def spellings(dod, root=""):
         rel = posixpath.normpath(dod)
         norm = "$ROOT/" + rel
     last = rel.split("/")[-1]
-    out = [dod, norm, rel, "./" + rel, rel + "/", rel + "/../" + last, "./x/.././" + rel + "/."]
+    out = [dod, norm, rel, "./" + rel, rel + "/", rel + "/../" + last, "./x/.././" + rel + "/.",
+           # absolute spellings with dot segments (an absolute path is normalised like a relative one)
+           norm + "/../" + last, norm + "/zz/..", norm + "/./"]
     return list(dict.fromkeys(out))
 
 
@@ -61,7 +63,7 @@ def run(ctx):
         return ctx.finish(proof=proof)
     root = os.path.join(vlib.SCRATCH, "u6")
     total = groups = 0
-    rootsets = [[7], [2], [4, 5], [23, 3], [10, 11], [21, 22], [17, 24], [6, 9, 5], [18, 19, 20], [4, 23, 5, 3]]
+    rootsets = [[7], [2], [4, 5], [23, 3], [10, 11], [21, 22], [17, 24], [6, 9, 5], [18, 19, 20], [4, 23, 5, 3], [39, 3], [40, 5]]
     # one type of every shared file alone (so that the other types of that file are "outside the export set")
     types0, _ = uni.describe(binary, root, None)
     byp = {}
@@ -82,7 +84,7 @@ def run(ctx):
             for vi, (vname, steps) in enumerate(vs):
                 pre = []
                 if vi % 3 == 1:      # stale files at (some) target locations and an unrelated file
-                    pre = [{"k": "write", "p": dod.rstrip("/") + "/" + types[t]["output_path"],
+                    pre = [{"k": "write", "p": dod.rstrip("/") + "/" + __import__("posixpath").normpath(types[t]["output_path"]),
                             "s": "// stale\n\nexport type Stale = 1;\n" if j % 2 else "garbage without blank line"} for j, t in enumerate(S)]
                 elif vi % 3 == 2:    # a previous run (another process): same files already there
                     pre = [{"k": "export_all", "t": r} for r in roots] + [{"k": "reset"}]
